@@ -14,3 +14,11 @@ pub mod verif_hooks_sm;
 
 #[cfg(feature = "verif-hooks")]
 pub mod verif_hooks_io;
+
+/// C10 hooks live inside the private `router_handler` module; re-exported
+/// here so the `verif` facade can name them.
+#[cfg(feature = "verif-hooks")]
+pub mod verif_hooks_c10_export {
+    pub use super::router_handler::verif_hooks_c10::*;
+    pub use super::router_handler::RouterHandler;
+}
